@@ -159,7 +159,8 @@ macro_rules! sealed_float {
                     return FloatKind::Finite { neg, conv };
                 }
 
-                let mut src_frac_bits = prec - 1 - exp;
+                // subnormals use the exponent of the smallest normals
+                let mut src_frac_bits = prec - 1 - exp.max(Self::EXP_MIN);
                 let need_to_shr = src_frac_bits - dst_frac_bits as i32;
                 if need_to_shr > prec {
                     let dir = if neg {
